@@ -23,6 +23,7 @@ import subprocess
 
 import core
 import trees
+import scale
 import modelrun
 from ref import oracle
 
@@ -857,7 +858,8 @@ def apply_desc(files, desc):
             state[i] = files[i][1][:d[2]]
         else:
             x = files[i][1]
-            state[i] = x[:d[2]] + bytes([x[d[2]] ^ 0xFF]) + x[d[2] + 1:]
+            mask = d[3] if len(d) > 3 else 0xFF          # (the damage sets at scale record the flipped bits)
+            state[i] = x[:d[2]] + bytes([x[d[2]] ^ mask]) + x[d[2] + 1:]
     return state
 
 
@@ -1225,9 +1227,9 @@ def ask(chk, via):
 class Held:
     """Checker objects of one (metafile, content path) that are kept and asked again after every change of the disk"""
 
-    def __init__(self, mf, path):
+    def __init__(self, mf, path, plans=None):
         self.objs, self.asked = {}, {}
-        for plan in REUSE_PLANS:
+        for plan in (plans or REUSE_PLANS):
             try:
                 self.objs[plan] = new_checker(mf, path)
                 self.asked[plan] = []
@@ -1392,6 +1394,11 @@ def e2e(ctx, mode):
         if mode in ("C04", "C16"):
             aimed_zero_tail(ctx, mode, tmp)
         aimed_layouts(ctx, mode, tmp)
+        import time
+        t0 = time.time()
+        e2e_scale(ctx, mode, tmp)
+        if os.environ.get("VERIF_TIMING"):
+            print(f"[timing] e2e_scale {time.time() - t0:.1f}s", file=sys.stderr)
 
 
 ATTR_LABEL = "v1 metafile of another encoder: ordinary files carry attr x/h/xh (plain and with pad entries, attr p, between files)"
@@ -1572,6 +1579,264 @@ def _aimed_utf8_one(ctx, mode, tmp, data, klass):
                 ctx.fail("utf8-digest", inp, 100.0, r, detail="pyben returns a valid-UTF-8 `pieces` string as str (D37)")
 
 
+# ----------------------------------------------------------------------- end to end at SCALE
+MIB = 1 << 20
+SCALE_SALT = 0x5CA1ED
+SCALE_RANDOM = {"dup": 10, "scale": 16}       # random cases per family after the templates (thorough tier)
+
+# Payloads with DUPLICATE CONTENT: (piece length, [(file, size, content id)], aim).  Files with the same content id are
+# INDEPENDENT copies of the same bytes (no links): a v2 / hybrid metafile records the same pieces root for them and ONE piece
+# layers entry, and each copy is damaged on its own.  Sizes either side of 1 MiB, at ordinary piece lengths and at scale.
+DUP_TEMPLATES = [
+    (16384, [("a.bin", MIB + 5, 0), ("b.bin", MIB + 5, 0), ("c.bin", 70000, 1)],
+     "two copies just above 1 MiB at 16 KiB pieces, then a different file"),
+    (65536, [("a.bin", 2 * MIB, 0), ("b.bin", 100, 1), ("d/a.bin", 2 * MIB, 0)],
+     "two copies of exactly 2 MiB around a small file, 64 KiB pieces, the later copy in a subdirectory"),
+    (2 * MIB, [("a.bin", 3 * MIB, 0), ("b.bin", 3 * MIB, 0)], "two copies of 3 MiB at 2 MiB pieces"),
+    (32768, [("a.bin", MIB, 0), ("b.bin", MIB, 0), ("c.bin", MIB, 0)], "three copies of exactly 1 MiB, 32 KiB pieces"),
+    (4 * MIB, [("a.bin", MIB + 1, 0), ("b.bin", 5 * MIB, 1), ("c.bin", MIB + 1, 0)],
+     "copies shorter than the piece length (no piece layers entry) around a multi-piece file"),
+    (16384, [("a.bin", 3 * 16384 + 7, 0), ("b.bin", 3 * 16384 + 7, 0), ("c.bin", 5, 1)], "small copies of three pieces and a bit"),
+    (32768, [("a.bin", MIB - 1, 0), ("b.bin", 40000, 1), ("c.bin", MIB - 1, 0)], "two copies just below 1 MiB"),
+]
+
+
+def dup_gen(rng, n):
+    """duplicate-content case n: the templates in turn, then random ones of the same kind -> (pl, tree, classes, aim)"""
+    if n < len(DUP_TEMPLATES):
+        pl, spec, aim = DUP_TEMPLATES[n]
+    else:
+        pl = rng.choice([16384, 32768, 65536, 2 * MIB, 4 * MIB])
+        size = rng.choice([MIB - 1, MIB, MIB + 1, 2 * MIB, 3 * MIB, 2 * pl + 7 if pl < MIB else pl + MIB, rng.randrange(2 * B, 3 * MIB)])
+        names = rng.sample(scale.NAMES, rng.randrange(2, 5))
+        ncopies = rng.randrange(2, min(3, len(names)) + 1)
+        copies = set(rng.sample(names, ncopies))
+        spec = [(nm, size, 0) if nm in copies else (nm, rng.choice([100, 70000, MIB + 5]), 1 + k) for k, nm in enumerate(sorted(names))]
+        aim = "random duplicate-content payload"
+    contents, tree = {}, {}
+    for name, size, cid in spec:
+        if cid not in contents:
+            contents[cid] = rng.randbytes(size)
+        tree[tuple(name.split("/"))] = bytes(bytearray(contents[cid]))      # a copy, not the same object
+    size = max(len(contents[0]), 1)
+    classes = {"duplicate content: " + aim,
+               "duplicate content: copies of %s" % ("1 MiB or more" if size >= MIB else "less than 1 MiB"),
+               "duplicate content: copies %s" % ("longer than a piece (piece layers entry shared)" if size > pl else "not longer than a piece")}
+    classes.add("scale: piece length %d MiB" % (pl // MIB) if pl >= MIB else "duplicate content: piece length %d KiB" % (pl // 1024))
+    return pl, tree, classes, aim
+
+
+def scale_offsets(L, pl, rng):
+    """offsets of a file of L bytes next to the places where buffered reads change hands: multiples of 1 / 4 / 8 MiB and of the
+       piece length (the first, the second and the last of each, one byte either side), both ends, two random ones"""
+    c = {0, 1, L - 2, L - 1, L // 2, ((L - 1) // pl) * pl, rng.randrange(L), rng.randrange(L)}
+    for w in (MIB, 4 * MIB, 8 * MIB, pl):
+        for k in {1, 2, L // w, (L - 1) // w}:
+            c |= {k * w - 1, k * w, k * w + 1}
+    return sorted(x for x in c if 0 <= x < L)
+
+
+def scale_damage(rng, files, pl, ndmg, single):
+    """a damage set on `ndmg` distinct non-empty files: flip (the flipped bits are recorded) / truncate (to 0, to a multiple of a
+       read window or of the piece length, one byte either side, ...) / remove -> (state, description for apply_desc)"""
+    desc = []
+    nonempty = [i for i, (_, d) in enumerate(files) if d]
+    for i in sorted(rng.sample(nonempty, min(ndmg, len(nonempty)))):
+        L = len(files[i][1])
+        r = rng.random()
+        if r < 0.4:
+            desc.append(["flip", i, rng.choice(scale_offsets(L, pl, rng)), rng.choice([0xFF, 0x01, 0x80])])
+        elif r < 0.8 or single:
+            desc.append(["trunc", i, rng.choice(scale_offsets(L, pl, rng) + [0])])
+        else:
+            desc.append(["rm", i])
+    return apply_desc(files, desc), desc
+
+
+def dup_groups(files):
+    """indices (in listing order) of the files that share their content with another file"""
+    by = {}
+    for i, (_, d) in enumerate(files):
+        if d:
+            by.setdefault(hashlib.sha256(d).digest(), []).append(i)
+    return [g for g in by.values() if len(g) > 1]
+
+
+def dup_sets(rng, files, pl, mode, thorough):
+    """damage sets aimed at duplicate content: [(class label, description)] -- ONLY the later copy (flip; truncation), ONLY the
+       earlier copy, (C16 / thorough) the later copy removed, both copies damaged in different places"""
+    g = max(dup_groups(files), key=len)
+    first, last = g[0], g[-1]
+    L = len(files[first][1])
+    offs = scale_offsets(L, pl, rng)
+    cuts = [x for x in offs if x > 0]
+    out = [("damage only in the LATER copy (flip)", [["flip", last, rng.choice(offs), rng.choice([0xFF, 0x01, 0x80])]]),
+           ("damage only in the LATER copy (truncated, bytes left)", [["trunc", last, rng.choice(cuts)]]),
+           ("damage only in the EARLIER copy", [["flip", first, rng.choice(offs), 0xFF]])]
+    if mode == "C16" or thorough:
+        out.append(("the later copy removed", [["rm", last]]))
+        a, b = rng.sample(offs, 2)
+        out.append(("both copies damaged in different places", [["flip", first, a, 0x01], ["trunc", last, max(b, 1)]]))
+        if len(g) > 2:
+            out.append(("damage only in a MIDDLE copy", [["flip", g[1], rng.choice(offs), 0x80]]))
+    return out
+
+
+def scale_kinds(cn, thorough, template):
+    """the metafile kinds of case cn at scale: every kind for the templates of the thorough tier; else five -- a v1 creator, a
+       reference v1 encoding (at least one of the two without padding between the files), reference v2, reference hybrid and one
+       of the four v2-view creators -- rotating with the case number"""
+    if thorough and template:
+        return list(KINDS)
+    return [("v1", "v1-align", "v1")[cn % 3], ("ref-v1", "ref-v1-attr", "ref-v1-attr-pad")[cn % 3], "ref-v2", "ref-hybrid",
+            ("v2-class", "hybrid-asm", "hybrid-class", "v2-asm")[cn % 4]]
+
+
+def scale_case(base, case_seed, family, n, thorough, kinds):
+    """case n of a family ("dup": duplicate content; "scale": harness/scale.py) as a function of its seed (a replay file
+       rebuilds it): (scenario, generator classes, aim, is a template)"""
+    rng = random.Random(case_seed)
+    if family == "dup":
+        pl, tree, classes, aim = dup_gen(rng, n)
+        template = n < len(DUP_TEMPLATES)
+    else:
+        pl, tree, classes = scale.gen(rng, n, thorough=thorough)
+        tpl = scale.templates(thorough)
+        template = n < len(tpl)
+        aim = tpl[n][2] if template else "random sizes k MiB + r"
+    return Scenario(base, rng, pl=pl, tree=tree, kinds=kinds), set(classes), aim, template
+
+
+def write_changes(sc, cur, new):
+    """bring the disk from state `cur` to state `new` writing only the files that differ (the payloads are large)"""
+    for (comps, _), a, b in zip(sc.files, cur, new):
+        if a is not b and a != b:
+            write_file(path_of(sc.root, comps, sc.single), b)
+
+
+def damage_classes(files, desc, pl):
+    cl = set()
+    for d in desc:
+        L = len(files[d[1]][1])
+        if d[0] == "rm":
+            cl.add("scale: a file removed")
+        elif d[0] == "trunc":
+            n = d[2]
+            cl.add("scale: truncated to 0" if n == 0 else
+                   "scale: truncated to a non-zero multiple of 1 MiB" if n % MIB == 0 else
+                   "scale: truncated within 1 byte of a multiple of 1 MiB" if (n + 1) % MIB < 3 else "scale: truncated elsewhere")
+        else:
+            o = d[2]
+            cl.add("scale: flip in the first 1 MiB of a file" if o < MIB else
+                   "scale: flip in the last 1 MiB of a file of more than 2 MiB" if o >= L - MIB else "scale: flip beyond the first 1 MiB of a file")
+            if pl >= MIB and o >= pl:
+                cl.add("scale: flip beyond the first piece of a file")
+    return cl
+
+
+def e2e_scale(ctx, mode, tmp):
+    """
+    Checker.results() / iter_hashes() / the CLI versus the reference verifier AT SCALE: the payloads of harness/scale.py (piece
+    lengths 2 .. 16 MiB -- 32 MiB in the thorough tier --, file sizes aimed at 1 / 4 / 8 MiB read windows) and payloads with
+    DUPLICATE CONTENT (independent copies of 48 KiB .. 3 MiB, piece lengths 16 KiB .. 4 MiB), metafiles of the real creators and
+    of the reference encoder (v1 / v2 / hybrid), intact and damaged (flips, truncations, removals next to window and piece
+    boundaries; for duplicates the later copy only / the earlier copy only / both), through the payload root and the parent
+    directory, judged by the same `judge` as the small cases.  Nothing here goes to the extracted models.
+    """
+    thorough = ctx.tier == "thorough"
+    plan = [("dup", n) for n in range(len(DUP_TEMPLATES) + (SCALE_RANDOM["dup"] if thorough else 0))] + \
+           [("scale", n) for n in range(len(scale.templates(thorough)) + (SCALE_RANDOM["scale"] if thorough else 0))]
+    nsets = 3 if thorough else 2
+    for cn, (family, n) in enumerate(plan):
+        case_seed = ctx.rng.getrandbits(64)
+        base = os.path.join(tmp, f"sc{cn}")
+        template = n < (len(DUP_TEMPLATES) if family == "dup" else len(scale.templates(thorough)))
+        sc, gcl, aim, _ = scale_case(base, case_seed, family, n, thorough, scale_kinds(cn, thorough, template))
+        recipe = {"scope": "scale", "case_seed": case_seed, "scale_family": family, "scale_index": n, "scale_thorough": thorough,
+                  "aim": aim}
+        for k, err in sc.errors.items():
+            ctx.fail("create-raised", sc.describe(k, None, recipe), "a metafile", err)
+        drng = random.Random(case_seed ^ SCALE_SALT)
+        intact = [d for _, d in sc.files]
+        sets = [] if mode == "C04" else [("intact", intact, [])]
+        if mode != "C05":
+            if family == "dup":
+                sets += [("duplicate content: " + lb, apply_desc(sc.files, d), d) for lb, d in dup_sets(drng, sc.files, sc.pl, mode, thorough)]
+            for _ in range(nsets if family == "scale" else 1):
+                st, d = scale_damage(drng, sc.files, sc.pl, drng.randrange(1, 4), sc.single)
+                sets.append((None, st, d))
+        # objects that are kept and asked again after the disk changed (C04: they saw the intact tree; C05: a damaged one; C16: one
+        # object per kind that saw the intact tree).  Quick tier: the plan `results()` only
+        plans = list(REUSE_PLANS) if thorough and template else ["results()"]
+        reuse, held, ddesc = {}, {}, None
+        if mode == "C05":
+            dstate, ddesc = scale_damage(drng, sc.files, sc.pl, drng.randrange(1, 3), sc.single)
+            write_changes(sc, intact, dstate)
+        if mode in ("C04", "C05"):
+            for kind, (mf, _) in sc.metas.items():
+                reuse[kind] = Held(mf, sc.root, plans)
+                reuse[kind].ask_all()
+        cur = dstate if mode == "C05" else intact
+        for sn, (label, state, desc) in enumerate(sets):
+            write_changes(sc, cur, state)
+            cur = state
+            dcl = damage_classes(sc.files, desc, sc.pl) | ({label} if label and label != "intact" else set())
+            for kind, (mf, meta) in sc.metas.items():
+                entries, origs = sc.entries(kind)
+                per_file = view_of(meta) == "v2"
+                ref = reference(meta, sc.root)
+                inp = sc.describe(kind, desc, dict(recipe, set_index=sn))
+                guard = True
+                if per_file:
+                    g = v2_piece_guard(entries, origs, sc.pl)
+                    guard = True if all(g) else g
+                cl = {("v2: " if per_file else "") + c for c in classify(entries, origs, sc.pl, per_file)} | {"metafile " + kind} | gcl | dcl
+                cl.add("scale: end-to-end case at scale" if family == "scale" else "duplicate content: end-to-end case")
+                where = ("scale-" if family == "scale" else "dup-") + ("v2" if per_file else "v1")
+                if mode == "C16":
+                    impl = impl_run(mf, sc.root)
+                    if sn == 0:
+                        try:
+                            held[kind] = new_checker(mf, sc.root)
+                            trees.quiet(held[kind].results)
+                        except Exception:  # noqa
+                            held.pop(kind, None)
+                    elif kind in held and "error" not in impl:
+                        again = ask(held[kind], "results()")
+                        cl.add("a Checker object reused after the disk changed")
+                        if again != impl["result"]:
+                            ctx.fail("reused-checker-object-differs", dict(inp, earlier_states=[d for _, _, d in sets[:sn]]),
+                                     f"{impl['result']} (what a fresh Checker reports for this disk state)", again)
+                else:
+                    r = impl_result(mf, sc.root)
+                    impl = {"error": r} if isinstance(r, str) else {"result": r, "results()": r, "trace": []}
+                judge(ctx, mode, where, inp, entries, origs, impl, ref, guard_ok=guard)
+                if guard is not True:
+                    cl.add("v2: a piece excluded by the not-all-zero restriction")
+                if mode == "C04" and kind in reuse:
+                    cl.add("a Checker object reused after the disk changed (intact -> damaged)")
+                    reuse_c04(ctx, reuse[kind], inp, entries, origs, [[]] + [d for _, _, d in sets[:sn]])
+                if mode == "C05" and kind in reuse:
+                    cl.add("a Checker object reused after the disk changed (damaged -> restored)")
+                    reuse_c05(ctx, reuse[kind], inp, [ddesc])
+                ri = impl.get("result", impl.get("error"))
+                # content path = parent directory: the same verdict (C05: every case; C04 / C16: the first state of each case)
+                if mode == "C05" or sn == 0:
+                    rp = impl_result(mf, sc.parent)
+                    cl.add("content path = parent directory")
+                    if rp != ri:
+                        ctx.fail("root-vs-parent", dict(inp, content_path="parent"), f"same verdict as through the root: {ri}", rp)
+                # the command line (cli.execute) for the first state of every third case
+                if cn % 3 == 1 and sn == 0:
+                    rcli = cli_result(mf, sc.root, tmp)
+                    cl.add("through the CLI (cli.execute)")
+                    if rcli != ri and not (isinstance(ri, str) and isinstance(rcli, str)):
+                        ctx.fail("cli-vs-library", inp, ri, rcli)
+                ctx.case(key=("e2e-scale", mode, family, n, sn, kind), classes=sorted(cl), nontrivial=True,
+                         sample=inp if (cn, sn) == (len(DUP_TEMPLATES) + 1, 0) and kind == "ref-v2" else None)
+        shutil.rmtree(base, ignore_errors=True)
+
+
 def classify_failure(failure):
     inp = failure.get("input") or {}
     if isinstance(inp, dict):
@@ -1664,6 +1929,17 @@ def replay(ctx, mode, data):
                                  [inp["metafile"]], inp.get("shape"))
             seq_states = [apply_desc(sc.files, d) for d in (reuse or {}).get("earlier_states", [])] + [apply_desc(sc.files, inp["damage"])]
             sc.set_state(seq_states[-1])
+            mf, meta = sc.metas[inp["metafile"]]
+            impl = impl_run(mf, sc.parent if inp.get("content_path") == "parent" else sc.root)
+            ref = reference(meta, sc.root)
+        elif inp["scope"] == "scale":
+            print("case at scale / with duplicate content: rebuilt from case_seed (payload) and the recorded damage")
+            sc, _, aim, _ = scale_case(os.path.join(tmp, "sc"), inp["case_seed"], inp["scale_family"], inp["scale_index"],
+                                       inp["scale_thorough"], [inp["metafile"]])
+            print("payload:", sc.root, "files:", {"/".join(c): len(x) for c, x in sc.files}, "piece length:", sc.pl, "aim:", aim)
+            if reuse:
+                seq_states = [apply_desc(sc.files, d) for d in reuse["earlier_states"]] + [apply_desc(sc.files, inp["damage"])]
+            sc.set_state(apply_desc(sc.files, inp["damage"]))
             mf, meta = sc.metas[inp["metafile"]]
             impl = impl_run(mf, sc.parent if inp.get("content_path") == "parent" else sc.root)
             ref = reference(meta, sc.root)
